@@ -46,7 +46,7 @@ def sample_sub(sub, rng, depth=0):
         elif op is sc.IN:
             out.append(sample_in(av, rng))
         elif op is sc.ANY:
-            out.append(rng.choice('ab1 ,'))
+            out.append(rng.choice('ab1 ,\n\n'))        # the patterns are compiled with DOTALL: `.` covers line ends too
         elif op is sc.BRANCH:
             out.append(sample_sub(rng.choice(av[1]), rng, depth + 1))
         elif op in (sc.MAX_REPEAT, sc.MIN_REPEAT):
